@@ -27,6 +27,7 @@ SOQuick   == {NoneV, 0, 1}
 SOFull    == {NoneV, 0, 1, 2}
 CRSmall   == {NoneV, FalseV, 0, 1}
 CRTiny    == {NoneV, FalseV, 0}
+CRMini    == {NoneV, 0}
 SOSmall   == {NoneV, 1}
 JustTrue  == {TRUE}
 RDirect   == {"direct"}
@@ -75,14 +76,14 @@ NoCfgs == {}
 OutcomesPlain == AllOutcomes \ {"TunRefused"}
 OutcomesAll   == AllOutcomes
 \* one representative per class the Model / the monitor distinguish (quick stage 1)
-OutcomesCore  == {"ConnRefused", "SendErr", "ReadTimeout", "ReadEOF", "OK200", "S500", "S429RA", "S404RA", "TunRefused"}
-OutcomesTiny  == {"ConnRefused", "ReadEOF", "ReadReset", "OK200", "S500", "S429RA", "S404RA", "TunRefused"}
+OutcomesCore  == {"ConnRefused", "SendErr", "ReadTimeout", "ReadEOF", "OK200", "S500", "S429RA", "S413RAdPast", "S404RA", "TunRefused"}
+OutcomesTiny  == {"ConnRefused", "ReadEOF", "OK200", "S500", "S429RA", "S429RAdSkew", "S404RA", "TunRefused"}
 \* what stage 2 enumerates in the quick tier (the property's list; TunRefused only applies to the tunnel route)
 OutcomesEmit  == {"ConnRefused", "SendErr", "ReadTimeout", "ReadReset", "ReadEOF", "ReadGarbage", "OK200", "S500",
-                  "S429RA", "S503RA", "S413RA", "S404RA", "TunRefused"}
+                  "S429RA", "S503RAdSkew", "S413RA", "S429RAdFut", "S404RA", "TunRefused"}
 
 NoDefects == {}
-DefectD2  == {"D2"}
+DefectUnclamped == {"RetryAfterNotClamped"}
 
 View == <<cfg, m, ob>>
 
